@@ -130,7 +130,7 @@ def show_min(e, ctx: int = 0) -> str:
     if k in POSTFIX:
         inner = e[1]
         a = show_min(inner, 2)
-        if inner[0] in POSTFIX or inner[0] in ("and", "not") or (inner[0] == "id" and inner[2]):
+        if inner[0] in POSTFIX or inner[0] in ("and", "not") or (inner[0] == "id" and inner[2]) or (inner[0] == "group" and inner[2]):
             a = "(" + a + ")"
         suffix = {"opt": "?", "rep": "*", "rep1": "+"}.get(k)
         if suffix is None:
@@ -138,7 +138,11 @@ def show_min(e, ctx: int = 0) -> str:
         return a + suffix
     if k in ("and", "not"):
         # the front end parses the operand of a prefix operator with its postfix operators attached
-        return ("&" if k == "and" else "!") + show_min(e[1], 2)
+        a = show_min(e[1], 2)
+        inner = e[1]
+        if (inner[0] == "id" and inner[2]) or (inner[0] == "group" and inner[2]):
+            a = "(" + a + ")"        # a node tag comes before the prefix operators of its term: &(#t = x), never &#t = x
+        return ("&" if k == "and" else "!") + a
     if k == "push":
         return "PUSH(" + show_min(e[1], 0) + ")"
     return show(e)
@@ -356,14 +360,17 @@ def gen_grammar(rng: random.Random, feats: set):
             rules[n] = (rng.choice(mods), gen_expr(rng, rng.choice([1, 2, 2, 3]), feats, names))
         if "ws" in feats:
             body = rng.choice([("str", " "), ("choice", [("str", " "), ("str", "\t")]), ("str", " "),
-                               ("choice", [("str", " "), ("id", "NEWLINE", None)])])
+                               ("choice", [("str", " "), ("id", "NEWLINE", None)]),
+                               # a bare sequence: its first item can match where the whole rule fails
+                               ("seq", [("str", " "), ("str", "\t")]), ("seq", [("str", " "), ("str", " ")])])
             rules["WHITESPACE"] = (rng.choice(["_", "_", "_", ""]), body)
         if "cm" in feats:
             body = rng.choice([
                 ("seq", [("str", "#"), ("rep", ("range", "a", "b")), ("str", "#")]),
                 ("str", "#"),
                 ("seq", [("str", "/"), ("str", "/")]),
-                ("seq", [("str", "#"), ("id", "r2", None)]) if rng.random() < 0.3 else ("str", "#"),
+                ("seq", [("str", "#"), ("id", "r2", None)]) if rng.random() < 0.5 else ("str", "#"),
+                ("seq", [("str", "#"), ("id", "r1", None), ("str", "#")]) if rng.random() < 0.5 else ("str", "#"),
             ])
             if "ws" in feats and rng.random() < 0.5:
                 # a comment that overlaps the whitespace rule: which trivia rule is tried first is then visible
@@ -496,6 +503,9 @@ def gen_stack_ops(rng: random.Random, n: int, depth: int):
         elif k == "choice":
             items.append(("group", ("choice", [("seq", gen_stack_ops(rng, rng.choice([2, 3]), depth - 1) + [("str", "!")]),
                                                ("seq", gen_stack_ops(rng, rng.choice([1, 2]), depth - 1))]), None))
+        elif k == "and" and rng.random() < 0.4:
+            # a predicate written directly over one stack terminal, no parentheses in between
+            items.append((rng.choice(["and", "and", "not"]), rng.choice([("pop",), ("drop",), ("popall",), ("pushlit", "a"), ("peek",), ("peekall",)])))
         elif k == "and":
             items.append(("and", ("group", ("seq", gen_stack_ops(rng, rng.choice([2, 3]), depth - 1)), None)))
         else:
@@ -698,6 +708,13 @@ def gen_skip_template(rng: random.Random):
                        [("id", "EOI", None)], []])
     rules = {"r": (rng.choice(["@", "$", "@", ""]), ("seq", [skipper, *tail]) if tail else skipper),
              "w": ("", ("choice", [("str", x) for x in stops])), **rules_extra}
+    if rng.random() < 0.2:
+        a_, b_ = rng.choice(["a", "b", "-"]), rng.choice(["b", "c", ">"])
+        rules = {"r": (rng.choice(["@", "$", "@"]), ("seq", [("rep", ("group", ("seq", [("not", ("id", "st3", None)), ("id", "ANY", None)]), None)),
+                                                         ("opt", ("id", "st3", None)), ("rep", ("id", "ANY", None))])),
+                 "st3": (rng.choice(["!", "!", "", "_", "@"]), ("seq", [("str", a_), ("str", b_)])),
+                 "WHITESPACE": ("_", ("str", " "))}
+        return rules
     u = rng.random()
     if u < 0.2:
         # chained: the operand of the predicate is a rule that is itself a skip shape (and becomes a SkipUntil first)
@@ -921,4 +938,20 @@ def popall_templates():
             body = [("push", ("id", "l", None)), ("push", ("id", "l", None)),
                     ("group", ("choice", [first, ("str", "")]), None), ("peekall",), ("rep", ("id", "ANY", None))]
             out.append({"r": ("", ("seq", body)), "l": ("_", ("range", "a", "b"))})
+    return out
+
+
+def squash_boundary_grid():
+    """a range next to a two-character literal whose first character sits on / just inside / just outside the range's bounds,
+    in both orders, under four observers: whether the optimizer may fuse the choice hinges on exactly that character"""
+    out = []
+    for lo, hi in (("a", "c"), ("x", "x"), ("0", "9")):
+        for first in sorted({lo, hi, chr(ord(lo) - 1), chr(ord(hi) + 1), chr((ord(lo) + ord(hi)) // 2)}):
+            for order in (0, 1):
+                alts = [("range", lo, hi), ("str", first + "d")]
+                if order:
+                    alts.reverse()
+                ch = ("group", ("choice", alts), None)
+                for body in ([ch, ("id", "EOI", None)], [("rep", ch), ("id", "EOI", None)], [ch, ch, ("id", "EOI", None)], [ch, ("str", "d"), ("rep", ("id", "ANY", None))]):
+                    out.append({"r": ("", ("seq", body))})
     return out
